@@ -202,6 +202,44 @@ impl Prop for C11 {
             .prop_map(move |(b, c)| Case { base: Base::Bb(b), fmt: Opts::default(), variant: any_variant.clone(), cli: Some(c) });
         prop_oneof![5 => bw, 5 => bb, 1 => cli_bw, 1 => cli_bb].boxed()
     }
+    fn fixed_cases(_tier: Tier) -> Vec<Case> {
+        // uncompressed streams of round byte lengths through the temporary-file staging: N zoom records of
+        // 32 bytes at the first automatic level (contiguous 10-base values, resolution 160), two chromosomes
+        let mut v = vec![];
+        for n_records in [256u32, 2000, 2048, 4096] {
+            for multipass in [false, true] {
+                let per_chrom = n_records * 8;
+                let chroms: Vec<BwChrom> = (0..2)
+                    .map(|c| BwChrom {
+                        name: format!("chr{}", c + 1),
+                        size: per_chrom * 10,
+                        vals: (0..per_chrom).map(|i| BwVal { s: i * 10, e: i * 10 + 10, v: ((i + c) % 13) as f32 }).collect(),
+                    })
+                    .collect();
+                let mut fmt = Opts::default();
+                fmt.compress = false;
+                fmt.multipass = multipass;
+                fmt.zoom = ZoomSpec::Auto { initial: 160, max: 10 };
+                v.push(Case {
+                    base: Base::Bw(BwInput { chroms, unused: vec![] }),
+                    fmt,
+                    variant: Variant {
+                        threads: 2,
+                        channel_size: 100,
+                        inmemory: false,
+                        source: SourceKind::Infallible,
+                        delay_seed: 0,
+                        intensity: 0,
+                        conv_threads: 3,
+                        conv_inmemory: false,
+                        bias_consumer: false,
+                    },
+                    cli: None,
+                });
+            }
+        }
+        v
+    }
     fn check(case: &Case, obs: &mut Obs) -> Result<(), String> {
         if let Some(cfg) = &case.cli {
             return check_cli(case, cfg, obs);
